@@ -289,4 +289,314 @@ theorem rcore_wake (s : RState) (os : List Out) (rc : List Ev) (cr : Nat) (k : O
             simp only [List.mem_singleton] at hx
             exact Or.inr ⟨ec.req, c, hx, rfl, hs1, ho0⟩
 
+/-! ### the whole step -/
+
+structure RInv (s : RState) (past : Trace) : Prop where
+  core : RCore s (outs past) (past.map Prod.fst)
+  good : Good RLocal past
+
+theorem rinv_init : RInv rinit [] := ⟨by simpa using rcore_init, good_nil _⟩
+
+theorem rstep_recv_nil (s : RState) (k : Option Nat) (v : Nat) (hq : s.http.queue = []) :
+    rstep s (.recv k v) = (s, [.drop k v]) := by
+  simp [rstep, fstep, hq]
+
+theorem rstep_recv_cons (s : RState) (k : Option Nat) (v : Nat) (a : Nat) (q : List Nat)
+    (hq : s.http.queue = a :: q) :
+    rstep s (.recv k v) =
+      ({ s with http := ⟨s.http.nreq, q⟩,
+                tbl := (wakeOther (ownWait (store s.tbl k v) a (s.kof a)).1 (s.kof a) k v).1 },
+       (ownWait (store s.tbl k v) a (s.kof a)).2 ++
+         (wakeOther (ownWait (store s.tbl k v) a (s.kof a)).1 (s.kof a) k v).2) := by
+  simp [rstep, fstep, hq]
+
+theorem rinv_step (s : RState) (past : Trace) (e : Ev) (h : RInv s past) :
+    RInv (rstep s e).1 (past ++ [(e, (rstep s e).2)]) := by
+  obtain ⟨hcore, hgood⟩ := h
+  cases e with
+  | send =>
+    obtain ⟨hent, hsnt, hinq, hnd, huniq, hfresh, honce, hnf⟩ := hcore
+    have hst : rstep s .send =
+        ({ http := ⟨s.http.nreq + 1, s.http.queue ++ [s.http.nreq]⟩, cseq := s.cseq + 1,
+           tbl := upd s.tbl s.cseq (some ⟨s.http.nreq, none, .p1⟩),
+           kof := fun x => if x = s.http.nreq then s.cseq else s.kof x },
+         [.sent s.http.nreq s.cseq]) := by
+      simp [rstep, fstep]
+    rw [hst]
+    have hqlt : ∀ r, r ∈ s.http.queue → r < s.http.nreq := by
+      intro r hr
+      obtain ⟨e, he, h1, _⟩ := hinq r hr
+      have := (hsnt _ _ (hent _ e he).1).1
+      rw [h1] at this; exact this
+    refine ⟨⟨?_, ?_, ?_, ?_, ?_, ?_, ?_, ?_⟩, good_snoc hgood ?_⟩
+    · intro c e hc
+      simp only [upd] at hc
+      simp only [outs_snoc, List.mem_append, List.mem_singleton, outcomes_append, outcomes_sent,
+        Nat.add_zero, List.map_append, List.map_cons, List.map_nil]
+      split at hc
+      · cases hc; subst_vars
+        refine ⟨Or.inr rfl, fun _ => hfresh _ (Nat.le_refl _), ?_⟩
+        intro w hw; cases hw
+      · obtain ⟨h1, h2, h3⟩ := hent c e hc
+        exact ⟨Or.inl h1, h2, fun w hw => Or.inl (h3 w hw)⟩
+    · intro r c hm
+      simp only [outs_snoc, List.mem_append, List.mem_singleton] at hm
+      rcases hm with hm | hm
+      · obtain ⟨h1, h2, h3⟩ := hsnt r c hm
+        refine ⟨by simp only []; omega, by simp only []; omega, ?_⟩
+        have : r ≠ s.http.nreq := by omega
+        simp [this, h3]
+      · cases hm
+        exact ⟨by simp only []; omega, by simp only []; omega, by simp⟩
+    · intro r hr
+      simp only [List.mem_append, List.mem_singleton] at hr
+      rcases hr with hr | hr
+      · obtain ⟨e, he, h1, h2⟩ := hinq r hr
+        have hrl := hqlt r hr
+        have hne : r ≠ s.http.nreq := by omega
+        have hk : s.kof r ≠ s.cseq := by
+          have := (hsnt _ _ (hent _ e he).1).2.1; omega
+        refine ⟨e, ?_, h1, h2⟩
+        simp only [hne, if_false, upd, hk]; exact he
+      · subst hr
+        exact ⟨⟨s.http.nreq, none, .p1⟩, by simp [upd], rfl, rfl⟩
+    · simp only []
+      rw [List.nodup_append]
+      refine ⟨hnd, by simp, ?_⟩
+      intro a ha b hb
+      simp only [List.mem_singleton] at hb; subst hb
+      have := hqlt a ha; omega
+    · intro r r' c h1 h2
+      simp only [outs_snoc, List.mem_append, List.mem_singleton] at h1 h2
+      rcases h1 with h1 | h1 <;> rcases h2 with h2 | h2
+      · exact huniq r r' c h1 h2
+      · cases h2; have := (hsnt r _ h1).2.1; omega
+      · cases h1; have := (hsnt r' _ h2).2.1; omega
+      · cases h1; cases h2; rfl
+    · intro r hr
+      simp only [outs_snoc, outcomes_append, outcomes_sent, Nat.add_zero] at hr ⊢
+      exact hfresh r (by omega)
+    · intro r; simpa using honce r
+    · intro r hm
+      simp only [outs_snoc, List.mem_append, List.mem_singleton] at hm
+      rcases hm with hm | hm
+      · exact hnf r hm
+      · cases hm
+    · refine ⟨s.http.nreq, s.cseq, rfl, hfresh _ (Nat.le_refl _), ?_⟩
+      intro r' k' hm
+      have := hsnt r' k' hm
+      omega
+  | burn =>
+    have hst : rstep s .burn = (s, []) := rfl
+    rw [hst]
+    obtain ⟨hent, hsnt, hinq, hnd, huniq, hfresh, honce, hnf⟩ := hcore
+    refine ⟨⟨?_, by simpa using hsnt, hinq, hnd, by simpa using huniq, by simpa using hfresh,
+      by simpa using honce, by simpa using hnf⟩, good_snoc hgood rfl⟩
+    intro c e hc
+    obtain ⟨h1, h2, h3⟩ := hent c e hc
+    refine ⟨by simpa using h1, by simpa using h2, ?_⟩
+    intro w hw; simp only [List.map_append]; exact List.mem_append_left _ (h3 w hw)
+  | recv k v =>
+    cases hq : s.http.queue with
+    | nil =>
+      rw [rstep_recv_nil s k v hq]
+      obtain ⟨hent, hsnt, hinq, hnd, huniq, hfresh, honce, hnf⟩ := hcore
+      refine ⟨⟨?_, ?_, hinq, hnd, ?_, ?_, ?_, ?_⟩, good_snoc hgood ?_⟩
+      · intro c e hc
+        obtain ⟨h1, h2, h3⟩ := hent c e hc
+        refine ⟨by simpa using h1, by simpa using h2, ?_⟩
+        intro w hw; simp only [List.map_append]; exact List.mem_append_left _ (h3 w hw)
+      · intro r c hm; simp at hm; exact hsnt r c hm
+      · intro r r' c h1 h2; simp at h1 h2; exact huniq r r' c h1 h2
+      · intro r hr; simpa using hfresh r hr
+      · intro r; simpa using honce r
+      · intro r hm; simp at hm; exact hnf r hm
+      · intro x hx; exact Or.inl (by simpa using hx)
+    | cons a q =>
+      rw [rstep_recv_cons s k v a q hq]
+      -- micro step 1
+      have c1 := rcore_pop_store s _ _ a q k v hcore hq
+      have hanq : a ∉ q := by
+        have := hcore.nodup; rw [hq] at this; exact (List.nodup_cons.mp this).1
+      obtain ⟨ea, hea, hra, hsa⟩ := hcore.inq a (by rw [hq]; simp)
+      obtain ⟨e1, he1, hr1, hs1⟩ := store_some_fwd s.tbl k v _ ea hea
+      -- micro step 2
+      have c2 := rcore_own { s with http := ⟨s.http.nreq, q⟩, tbl := store s.tbl k v } _ _ a e1 c1
+        hanq he1 (by rw [hr1, hra]) (by rw [hs1, hsa])
+      obtain ⟨c2, o2⟩ := c2
+      -- micro step 3
+      have c3 := rcore_wake _ _ _ (s.kof a) k v c2
+      obtain ⟨c3, o3⟩ := c3
+      have hsent_a := (hcore.ent _ ea hea).1
+      have hout_a := (hcore.ent _ ea hea).2.1 (by rw [hsa]; decide)
+      rw [hra] at hsent_a hout_a
+      refine ⟨?_, good_snoc hgood ?_⟩
+      · simpa [List.append_assoc] using c3
+      · intro x hx
+        rcases List.mem_append.mp hx with hx | hx
+        · obtain ⟨w, hxw, hresp⟩ := o2 x hx
+          refine Or.inr ⟨a, s.kof a, w, hxw, hsent_a, hout_a, ?_⟩
+          obtain ⟨e0, he0, _, _, hr0⟩ := store_some_inv _ _ _ _ _ he1
+          rw [hea] at he0; cases he0
+          rcases hr0 with hr0 | ⟨hk, hr0⟩
+          · rw [hr0] at hresp
+            exact Or.inl ((hcore.ent _ ea hea).2.2 w hresp)
+          · rw [hr0] at hresp; cases hresp
+            exact Or.inr ⟨hk, rfl⟩
+        · rcases o3 x hx with hd | ⟨r, c, hxr, hk, hs, ho⟩
+          · exact Or.inl hd
+          · refine Or.inr ⟨r, c, v, hxr, ?_, ?_, Or.inr ⟨hk, rfl⟩⟩
+            · simp only [List.mem_append] at hs
+              rcases hs with hs | hs
+              · exact hs
+              · obtain ⟨w, hw, _⟩ := o2 _ hs; cases hw
+            · simp only [outcomes_append] at ho; omega
+  | timeout r =>
+    obtain ⟨hent, hsnt, hinq, hnd, huniq, hfresh, honce, hnf⟩ := hcore
+    have frame : ∀ (s' : RState) (o : List Out),
+        (∀ x, x ∈ o → x = .timeoutErr r) →
+        RCore s' (outs past ++ o) (past.map Prod.fst) →
+        RCore s' (outs (past ++ [(.timeout r, o)])) ((past ++ [(Ev.timeout r, o)]).map Prod.fst) := by
+      intro s' o _ hc
+      obtain ⟨a1, a2, a3, a4, a5, a6, a7, a8⟩ := hc
+      refine ⟨?_, by simpa using a2, a3, a4, by simpa using a5, by simpa using a6, by simpa using a7,
+        by simpa using a8⟩
+      intro c e hc
+      obtain ⟨h1, h2, h3⟩ := a1 c e hc
+      refine ⟨by simpa using h1, by simpa using h2, ?_⟩
+      intro w hw; simp only [List.map_append]; exact List.mem_append_left _ (h3 w hw)
+    by_cases hrq : r ∈ s.http.queue
+    · -- phase 1: the HTTP-level timeout; requests[cseq] is left behind (dead)
+      obtain ⟨e, he, hreq, hst⟩ := hinq r hrq
+      obtain ⟨hs1, ho1, hr1⟩ := hent _ e he
+      rw [hreq] at hs1 ho1
+      have ho0 : outcomes r (outs past) = 0 := ho1 (by rw [hst]; decide)
+      have hstep : rstep s (.timeout r) =
+          ({ s with http := ⟨s.http.nreq, s.http.queue.erase r⟩,
+                    tbl := upd s.tbl (s.kof r) (some { e with st := .dead }) },
+           [.timeoutErr r]) := by
+        simp [rstep, fstep, hrq, he, hreq]
+      rw [hstep]
+      have hother : ∀ c e', c ≠ s.kof r → s.tbl c = some e' → e'.req ≠ r := by
+        intro c e' hc hce heq
+        have := (hsnt _ _ (hent c e' hce).1).2.2
+        rw [heq] at this; exact hc this.symm
+      refine ⟨frame _ _ (by simp) ⟨?_, ?_, ?_, ?_, ?_, ?_, ?_, ?_⟩, good_snoc hgood ?_⟩
+      · intro c e' hc
+        simp only [upd] at hc
+        split at hc
+        · rename_i hck; cases hc; subst hck
+          refine ⟨List.mem_append_left _ (by simpa [hreq] using hs1), fun hd => by simp at hd, ?_⟩
+          intro w hw; exact hr1 w hw
+        · rename_i hck
+          obtain ⟨h1, h2, h3⟩ := hent c e' hc
+          have hne : ¬ r = e'.req := fun h => hother c e' hck hc h.symm
+          refine ⟨List.mem_append_left _ h1, ?_, h3⟩
+          intro hd; simp [hne, h2 hd]
+      · intro r' c hm
+        simp only [List.mem_append, List.mem_singleton] at hm
+        rcases hm with hm | hm
+        · exact hsnt r' c hm
+        · cases hm
+      · intro r' hr'
+        have hr'' := (hnd.mem_erase_iff.mp hr')
+        obtain ⟨e', he', h1, h2⟩ := hinq r' hr''.2
+        have hk : s.kof r' ≠ s.kof r := by
+          intro heq
+          have h1' := (hent _ e' he').1
+          rw [h1, heq] at h1'
+          exact hr''.1 (huniq _ _ _ h1' hs1)
+        refine ⟨e', ?_, h1, h2⟩
+        simp only [upd, hk, if_false]; exact he'
+      · exact hnd.sublist (List.erase_sublist)
+      · intro r1 r2 c h1 h2
+        simp only [List.mem_append, List.mem_singleton] at h1 h2
+        rcases h1 with h1 | h1 <;> rcases h2 with h2 | h2
+        · exact huniq r1 r2 c h1 h2
+        · cases h2
+        · cases h1
+        · cases h1
+      · intro r' hr'
+        have : r ≠ r' := by have := (hsnt _ _ hs1).1; simp only [] at hr'; omega
+        simp [this, hfresh r' hr']
+      · intro r'
+        by_cases hr : r = r'
+        · subst hr; simp [ho0]
+        · simp [hr, honce r']
+      · intro r' hm
+        simp only [List.mem_append, List.mem_singleton] at hm
+        rcases hm with hm | hm
+        · exact hnf r' hm
+        · cases hm
+      · exact Or.inr ⟨rfl, ⟨_, hs1⟩, ho0⟩
+    · by_cases hcase : ∃ e, s.tbl (s.kof r) = some e ∧ e.req = r ∧ e.st = .p2
+      · -- phase 2: waiting for the own CSeq timed out; entry deleted
+        obtain ⟨e, he, hreq, hst⟩ := hcase
+        obtain ⟨hs1, ho1, hr1⟩ := hent _ e he
+        rw [hreq] at hs1 ho1
+        have ho0 : outcomes r (outs past) = 0 := ho1 (by rw [hst]; decide)
+        have hstep : rstep s (.timeout r) =
+            ({ s with tbl := upd s.tbl (s.kof r) none }, [.timeoutErr r]) := by
+          simp [rstep, hrq, he, hreq, hst]
+        rw [hstep]
+        have hother : ∀ c e', c ≠ s.kof r → s.tbl c = some e' → e'.req ≠ r := by
+          intro c e' hc hce heq
+          have := (hsnt _ _ (hent c e' hce).1).2.2
+          rw [heq] at this; exact hc this.symm
+        refine ⟨frame _ _ (by simp) ⟨?_, ?_, ?_, hnd, ?_, ?_, ?_, ?_⟩, good_snoc hgood ?_⟩
+        · intro c e' hc
+          simp only [upd] at hc
+          split at hc
+          · cases hc
+          · rename_i hck
+            obtain ⟨h1, h2, h3⟩ := hent c e' hc
+            have hne : ¬ r = e'.req := fun h => hother c e' hck hc h.symm
+            refine ⟨List.mem_append_left _ h1, ?_, h3⟩
+            intro hd; simp [hne, h2 hd]
+        · intro r' c hm
+          simp only [List.mem_append, List.mem_singleton] at hm
+          rcases hm with hm | hm
+          · exact hsnt r' c hm
+          · cases hm
+        · intro r' hr'
+          obtain ⟨e', he', h1, h2⟩ := hinq r' hr'
+          have hk : s.kof r' ≠ s.kof r := by
+            intro heq; rw [heq, he] at he'; cases he'; rw [hst] at h2; cases h2
+          refine ⟨e', ?_, h1, h2⟩
+          simp only [upd, hk, if_false]; exact he'
+        · intro r1 r2 c h1 h2
+          simp only [List.mem_append, List.mem_singleton] at h1 h2
+          rcases h1 with h1 | h1 <;> rcases h2 with h2 | h2
+          · exact huniq r1 r2 c h1 h2
+          · cases h2
+          · cases h1
+          · cases h1
+        · intro r' hr'
+          have : r ≠ r' := by have := (hsnt _ _ hs1).1; simp only [] at hr'; omega
+          simp [this, hfresh r' hr']
+        · intro r'
+          by_cases hr : r = r'
+          · subst hr; simp [ho0]
+          · simp [hr, honce r']
+        · intro r' hm
+          simp only [List.mem_append, List.mem_singleton] at hm
+          rcases hm with hm | hm
+          · exact hnf r' hm
+          · cases hm
+        · exact Or.inr ⟨rfl, ⟨_, hs1⟩, ho0⟩
+      · have hstep : rstep s (.timeout r) = (s, []) := by
+          simp only [rstep, hrq, if_false]
+          split
+          · rename_i e he
+            split
+            · rename_i hc; exact absurd ⟨e, he, hc.1, hc.2⟩ hcase
+            · rfl
+          · rfl
+        rw [hstep]
+        refine ⟨frame _ _ (by simp) ?_, good_snoc hgood (Or.inl rfl)⟩
+        simpa using (⟨hent, hsnt, hinq, hnd, huniq, hfresh, honce, hnf⟩ : RCore s (outs past) _)
+
+theorem rinv_run (evs : List Ev) : RInv (finalS rstep rinit evs) (runT rstep rinit evs) :=
+  inv_run rstep RInv rinit rinv_init rinv_step evs
+
 end PyatvModel.C03
